@@ -373,6 +373,22 @@ pub fn main(args: &[String]) -> i32 {
                 }
             };
             let r = rng.random_range(0..100);
+            if rng.random_range(0..40) == 0 {
+                // second-chance story: a sweep leaves the survivors unreferenced; some of them are
+                // looked up again, small new entries push usage over the low watermark, and the next
+                // sweep can reach it by evicting unreferenced entries only
+                d.evict();
+                let present: Vec<u32> = d.cache.verif_entries().iter().filter_map(|e| d.key_id.get(&e.key).copied()).collect();
+                for pk in &present {
+                    if rng.random_range(0..2) == 0 { d.get(*pk, 0); }
+                }
+                for _ in 0..rng.random_range(1..4) {
+                    let nk = rng.random_range(1..=nkeys);
+                    if !present.contains(&nk) { d.insert(nk, 0, q / 4); }
+                }
+                d.evict();
+                continue;
+            }
             if r < 34 {
                 let g = pick_gen(&mut rng, &us);
                 let vlen = vlens[rng.random_range(0..vlens.len())];
